@@ -57,8 +57,10 @@ func checkMixed(c mixedCase, _ *kit.Collector) kit.Result {
 	first := c.Owners + joiners + 1 // owners, the first wave and the platform
 	for o := 0; o < c.Owners; o++ {
 		id := mixedIdentity(o, c.V2019)
+		// the owners say hello to a server that has served nothing yet, all at the same instant, while the platform already
+		// asks for keys that do not exist: the very first registry operations of a fresh server overlap
 		sc.Actors = append(sc.Actors, Actor{Name: fmt.Sprintf("owner%d", o), Kind: "terminal", Steps: []Step{{Op: "dial"}, {Op: "respond", Rules: []Rule{{Behaviour: "answer"}}},
-			{Op: "write", Hex: hb(id, 1)}, {Op: "wait_frames", N: 1, DeadlineMs: 5000}, {Op: "barrier", Barrier: "owners_online", Parties: first},
+			{Op: "barrier", Barrier: "cold_start", Parties: c.Owners + 1}, {Op: "write", Hex: hb(id, 1)}, {Op: "wait_frames", N: 1, DeadlineMs: 5000}, {Op: "barrier", Barrier: "owners_online", Parties: first},
 			{Op: "barrier", Barrier: "joined", Parties: all}, {Op: "write", Hex: hb(id, 2)}, {Op: "wait_frames", N: 2, DeadlineMs: 3000},
 			{Op: "barrier", Barrier: "probe", Parties: all}, {Op: "barrier", Barrier: "done", Parties: all}, {Op: "close", Mode: "fin"}}})
 	}
@@ -98,7 +100,11 @@ func checkMixed(c mixedCase, _ *kit.Collector) kit.Result {
 			sc.Actors = append(sc.Actors, Actor{Name: name, Kind: "terminal", Steps: steps})
 		}
 	}
-	ps := []Step{{Op: "barrier", Barrier: "owners_online", Parties: first}, {Op: "barrier", Barrier: "joined", Parties: all}, {Op: "barrier", Barrier: "probe", Parties: all}}
+	ps := []Step{{Op: "barrier", Barrier: "cold_start", Parties: c.Owners + 1}}
+	for k := 0; k < 8; k++ {
+		ps = append(ps, Step{Op: "send", Key: mixedIdentity(900+k, false).key(), Cmd: 0x8104, Body: []byte{0xc0, byte(k)}, TimeoutMs: 500, Async: true, CallID: 900 + k})
+	}
+	ps = append(ps, Step{Op: "join_calls", DeadlineMs: 2000}, Step{Op: "barrier", Barrier: "owners_online", Parties: first}, Step{Op: "barrier", Barrier: "joined", Parties: all}, Step{Op: "barrier", Barrier: "probe", Parties: all})
 	for o := 0; o < c.Owners; o++ {
 		ps = append(ps, Step{Op: "send", Key: mixedIdentity(o, c.V2019).key(), Cmd: 0x8104, Body: []byte{0xc1, byte(o)}, TimeoutMs: 1500, CallID: 100 + o})
 	}
@@ -188,6 +194,13 @@ func checkMixed(c mixedCase, _ *kit.Collector) kit.Result {
 	}
 	// every command returned with its response; join announcements: one success per owner and fresh key, one error per duplicate
 	for _, e := range h.Events {
+		if e.Kind == "call_result" && e.Call >= 900 {
+			if e.Note != "not_exist" {
+				res.Err = fmt.Errorf("SOFT a command for a key that never joined (sent to the fresh server) returned %q, want not-exist", e.Err)
+				return res
+			}
+			continue
+		}
 		if e.Kind == "call_result" && (e.Err != "" || !e.Flag) {
 			res.Err = fmt.Errorf("SOFT command %d for an online key returned %q", e.Call, e.Err)
 			return res
